@@ -229,6 +229,24 @@ def run_check(pid: str, tier: str, seed: int) -> int:
     lean_fail_detail += frame_fail
     obligations += frame_obl
     discharged += frame_ok
+    # grammar and glue obligations (syntactic back ends, see vlib/grammar.py and vlib/glue.py)
+    from vlib import grammar as grammar_mod, glue as glue_mod
+    extra = []
+    if pid in ("C05", "C10"):
+        extra += grammar_mod.check(REPO, os.path.join(leanbuild.LEAN_SRC, "Contracts", "Layout.lean"))
+    if pid in ("C10", "C14", "C03", "C11", "C07", "C06"):
+        g = glue_mod.check(REPO, os.path.join(VERIF, "vlib", "glue.json"))
+        if pid in ("C07", "C06"):
+            g = [x for x in g if "molfile_reader" in x["obligation"]]
+        elif pid in ("C03", "C11"):
+            g = [x for x in g if "parser" in x["obligation"] or "tucan" in x["obligation"]]
+        extra += g
+    for x in extra:
+        obligations.append(x["obligation"])
+        if x["ok"]:
+            discharged.append(x["obligation"])
+        else:
+            lean_fail_detail.append({"module": "<syntactic back end>", "obligations": [x["obligation"]], "lean_output": x["detail"]})
     # constant call depth (C15): the call graph of the extracted functions has no cycle
     acyclic = call_graph_acyclic(ex)
     if pid == "C15":
